@@ -155,7 +155,7 @@ func genLegacyLayout(t *rapid.T, root, repo string, simpleOnly bool) *legacyLayo
 		if len(l.arts) == 0 || rapid.IntRange(0, 5).Draw(t, "hasFallback") == 0 {
 			continue
 		}
-		kinds := []string{"accurate", "accurate", "stale-missing-entry", "foreign-subject-entry", "missing-blob-entry", "mixed", "wrong-fields", "empty"}
+		kinds := []string{"accurate", "accurate", "stale-missing-entry", "foreign-subject-entry", "missing-blob-entry", "mixed", "wrong-fields", "empty", "lists-subjectless"}
 		if simpleOnly {
 			kinds = []string{"accurate", "accurate", "stale-missing-entry", "empty"}
 		}
@@ -216,6 +216,18 @@ func genLegacyLayout(t *rapid.T, root, repo string, simpleOnly bool) *legacyLayo
 		if kind == "empty" {
 			ents, listed = []mdesc{}, nil
 		}
+		ordinary := false
+		if kind == "lists-subjectless" {
+			// besides the referrers the index lists a manifest that names no subject (the subject image itself, the way
+			// some tools build their listings) at the front, in the middle or at the end: that entry is no referrer, the
+			// others are converted all the same. With no genuine referrer left it is an ordinary index under an odd tag.
+			raw, _ := buildImage(mtImage, mtConfig, cfg, 2, nil, nil, nil, "", map[string]string{"subjectless": fmt.Sprint(si)})
+			e := mdesc{MediaType: mtImage, Digest: l.blob("sha256", raw), Size: int64(len(raw))}
+			pos := rapid.IntRange(0, len(ents)).Draw(t, "subjectlessAt")
+			ents = append(ents[:pos:pos], append([]mdesc{e}, ents[pos:]...)...)
+			adoptable = false
+			ordinary = len(listed) == 0
+		}
 		// an index whose entries all name one (other) subject is adoptable for that subject
 		if len(listed) > 0 {
 			allSame, allPresent := true, true
@@ -227,7 +239,7 @@ func genLegacyLayout(t *rapid.T, root, repo string, simpleOnly bool) *legacyLayo
 					allPresent = false
 				}
 			}
-			if allSame && allPresent && kind != "wrong-fields" {
+			if allSame && allPresent && kind != "wrong-fields" && kind != "lists-subjectless" {
 				adoptable = true
 			}
 			if kind == "wrong-fields" {
@@ -245,6 +257,10 @@ func genLegacyLayout(t *rapid.T, root, repo string, simpleOnly bool) *legacyLayo
 		fd := l.blob("sha256", raw)
 		l.index = append(l.index, mdesc{MediaType: mtIndex, Digest: fd, Size: int64(len(raw)), Annotations: map[string]string{annRefNameL: fallbackTag(sd)}})
 		l.desc = append(l.desc, fmt.Sprintf("fallback(s%d,%s,%d entries,adoptable=%v)", si, kind, len(ents), adoptable))
+		if ordinary {
+			l.tags[fallbackTag(sd)] = fd
+			l.manifests[fd] = mtIndex
+		}
 		// the same index may carry an ordinary tag as well (listed before or after the fallback entry): one of the "other tags"
 		if !simpleOnly && rapid.IntRange(0, 4).Draw(t, "secondTagOnFallbackIndex") == 0 {
 			tag := fmt.Sprintf("keep%d", si)
@@ -262,7 +278,7 @@ func genLegacyLayout(t *rapid.T, root, repo string, simpleOnly bool) *legacyLayo
 			for _, a := range listed {
 				addWant(a)
 			}
-			if len(ents) > 0 {
+			if len(ents) > 0 && !ordinary {
 				if adoptable {
 					l.adoptable++
 				} else {
